@@ -15,28 +15,44 @@ func main() {
 	curProp = cfg.Prop
 	installYield()
 	key := cfg.Prop + "/" + cfg.Mode
+	// A single-case run of a schedule-dependent mode (replay) repeats the
+	// scenario under up to 200 yield policies and stops at the first
+	// violation; the number of repetitions is reported.
+	reps := uint64(1)
+	if cfg.Count == 1 && (cfg.Mode == "conc" || cfg.Mode == "srv") {
+		reps = 200
+	}
+	run := func(i uint64, seed uint64) bool {
+		switch key {
+		case "C10/seq":
+			return runC10Seq(rec, i, seed)
+		case "C10/conc":
+			return runC10Conc(rec, i, seed)
+		case "C11/seq":
+			return runC11(rec, i, seed, false)
+		case "C11/conc":
+			return runC11(rec, i, seed, true)
+		case "C12/srv":
+			return runC12(rec, i, seed, false)
+		case "C12/selfpipe":
+			return runC12(rec, i, seed, true)
+		}
+		rec.Inconclusive("unknown prop/mode " + key)
+		return true
+	}
 	for i := cfg.Start; i < cfg.Start+cfg.Count; i++ {
 		seed := common.CaseSeed(cfg.Seed, key, i)
 		alive := true
-		switch key {
-		case "C10/seq":
-			alive = runC10Seq(rec, i, seed)
-		case "C10/conc":
-			alive = runC10Conc(rec, i, seed)
-		case "C11/seq":
-			alive = runC11(rec, i, seed, false)
-		case "C11/conc":
-			alive = runC11(rec, i, seed, true)
-		case "C12/srv":
-			alive = runC12(rec, i, seed, false)
-		case "C12/selfpipe":
-			alive = runC12(rec, i, seed, true)
-		default:
-			rec.Inconclusive("unknown prop/mode " + key)
-			i = cfg.Start + cfg.Count
+		for r := uint64(0); r < reps && alive; r++ {
+			policySalt = r
+			alive = run(i, seed)
+			if reps > 1 {
+				rec.Count("replay_repetitions", 1)
+			}
 		}
 		if !alive {
-			// deadlock or watchdog: the process is wedged
+			// violation, deadlock or watchdog: goroutines / locks may be left
+			// behind, continue in a fresh process
 			flushSiteHistogram(rec)
 			rec.AbortBatch(i + 1)
 		}
